@@ -353,12 +353,22 @@ func init() {
 				w, h := s.ImageSize()
 				sink = []interface{}{w, h, hevc.CodecString("hvc1", s)}
 			}
-			return errClass(err), nil
+			return errClass(err), func() string {
+				if err != nil {
+					return ""
+				}
+				return hevcSPSString(s)
+			}
 		}},
 		target{"hevc.ParsePPSNALUnit", false, func(in []byte, arg int) (string, func() string) {
 			p, err := hevc.ParsePPSNALUnit(in, contextSets().hevcSPS)
 			sink = p
-			return errClass(err), nil
+			return errClass(err), func() string {
+				if err != nil {
+					return ""
+				}
+				return hevcPPSString(p)
+			}
 		}},
 		target{"hevc.ParseSliceHeader", false, func(in []byte, arg int) (string, func() string) {
 			c := contextSets()
